@@ -63,12 +63,15 @@ func zzEffectPairs() []zzCmdFlag {
 	return res
 }
 
+// zzEffectTrees: the input of the command runs
+var zzEffectTrees = []string{
+	"((a:1,b:2)0.9:0.5,(c:0.25,d:4)0.4:0.125,e:3);",
+	"(((a:1,c:2)0.3:1.5,b:0.25)0.8:0.75,d:4,e:0.5);",
+}
+
 func zzEffectInput() []*tree.Tree {
 	var res []*tree.Tree
-	for _, s := range []string{
-		"((a:1,b:2)0.9:0.5,(c:0.25,d:4)0.4:0.125,e:3);",
-		"(((a:1,c:2)0.3:1.5,b:0.25)0.8:0.75,d:4,e:0.5);",
-	} {
+	for _, s := range zzEffectTrees {
 		t, err := newick.NewParser(strings.NewReader(s)).Parse()
 		if err != nil {
 			panic(err)
@@ -83,7 +86,7 @@ func zzEffectInput() []*tree.Tree {
 // fresh input; returns what the command wrote and whether it failed
 func zzEffectRun(args []string, dir string, stdinDefault bool) (string, bool) {
 	zzTrees = zzEffectInput()
-	zzRefTree = zzEffectInput()[1]
+	zzRefTree = zzEffectInput()[len(zzEffectTrees)-1]
 	zzErrAt = -1
 	RootCmd.SilenceUsage, RootCmd.SilenceErrors = true, true
 	RootCmd.SetArgs(args)
